@@ -8,6 +8,7 @@ import (
 	"sync"
 
 	"github.com/deepteams/webp/internal/dsp"
+	"github.com/deepteams/webp/internal/verifhook"
 )
 
 // importUVWorker holds pre-allocated buffers for UV conversion goroutines.
@@ -1367,6 +1368,7 @@ func (enc *VP8Encoder) EncodeFrame() ([]byte, error) {
 		} else {
 			enc.encodeFrame()
 		}
+		verifhook.FramePass(pass, enc.width, enc.height, enc.yPlane, enc.uPlane, enc.vPlane, enc.yStride, enc.uvStride)
 
 		if !doSearch {
 			break // quality mode: single pass
@@ -1401,6 +1403,7 @@ func (enc *VP8Encoder) EncodeFrame() ([]byte, error) {
 		return nil, err
 	}
 	enc.computeStats(frameData)
+	verifhook.FramePass(-1, enc.width, enc.height, enc.yPlane, enc.uPlane, enc.vPlane, enc.yStride, enc.uvStride)
 	return frameData, nil
 }
 
